@@ -52,30 +52,41 @@ Definition rights_from_target (nb : BoardState) (mov : point) : BoardState :=
   else if (fst mov =? BOARD_START) && (snd mov =? BOARD_END - 1) then take_away nb BKS
   else nb.
 
-(* one pseudo-legal target of an ordinary move: zero, one or four successors *)
-Definition successors_of_move (s : BoardState) (pc : piece) (sq mov : point) : list BoardState :=
+(* the clone moved and tested for self-check: None when the mover's king would be attacked *)
+Definition moved_board (s : BoardState) (pc : piece) (sq mov : point) : option BoardState :=
   let c := pcolor pc in
-  let k := pkind pc in
   let nb := with_promo s None in
   let nb := swap_color nb in
-  let nb := match k with King => set_king nb c mov | _ => nb end in
+  let nb := match pkind pc with King => set_king nb c mov | _ => nb end in
   let nb := with_oh nb (match get (board nb) mov with Full tp => mvv_lva tp pc | _ => 0 end) in
   let nb := move_piece nb sq mov in
   let nb := with_last nb (Some (sq, mov)) in
-  if is_check nb c then []
-  else
-    let nb := rights_from_origin nb pc sq in
-    let nb := rights_from_target nb mov in
-    let nb :=
-      if (match k with Pawn => true | _ => false end) && (Z.abs (fst sq - fst mov) =? 2) then
-        let ep := match c with White => (fst mov + 1, snd mov) | Black => (fst mov - 1, snd mov) end in
-        let nb := unset_pdm nb in
-        kx (with_pdm nb (Some ep)) (z_ep zt (snd ep))
-      else unset_pdm nb in
-    let is_pawn := match k with Pawn => true | _ => false end in
-    if (fst mov =? BOARD_START) && color_eqb c White && is_pawn then promote_pawn nb White sq mov
-    else if (fst mov =? BOARD_END - 1) && color_eqb c Black && is_pawn then promote_pawn nb Black sq mov
-    else [nb].
+  if is_check nb c then None else Some nb.
+
+Definition is_pawn_kind (k : kind) : bool := match k with Pawn => true | _ => false end.
+
+(* castling rights and the en-passant target of the successor *)
+Definition finalise (nb : BoardState) (pc : piece) (sq mov : point) : BoardState :=
+  let c := pcolor pc in
+  let nb := rights_from_origin nb pc sq in
+  let nb := rights_from_target nb mov in
+  if is_pawn_kind (pkind pc) && (Z.abs (fst sq - fst mov) =? 2) then
+    let ep := match c with White => (fst mov + 1, snd mov) | Black => (fst mov - 1, snd mov) end in
+    let nb := unset_pdm nb in
+    kx (with_pdm nb (Some ep)) (z_ep zt (snd ep))
+  else unset_pdm nb.
+
+(* one pseudo-legal target of an ordinary move: zero, one or four successors *)
+Definition successors_of_move (s : BoardState) (pc : piece) (sq mov : point) : list BoardState :=
+  match moved_board s pc sq mov with
+  | None => []
+  | Some nb =>
+      let c := pcolor pc in
+      let nb := finalise nb pc sq mov in
+      if (fst mov =? BOARD_START) && color_eqb c White && is_pawn_kind (pkind pc) then promote_pawn nb White sq mov
+      else if (fst mov =? BOARD_END - 1) && color_eqb c Black && is_pawn_kind (pkind pc) then promote_pawn nb Black sq mov
+      else [nb]
+  end.
 
 Definition en_passant_successor (s : BoardState) (pc : piece) (sq : point) : list BoardState :=
   match pawn_double_move s, pkind pc with
